@@ -38,4 +38,16 @@ CHECKS = {
                         "tiny positive TTLs (1 ns … 1 ms) race the wall clock: only crash-freedom, result equality and effective configuration are compared for them"],
         "proved_vs_tested": "proved: hit changes nothing and does not parse; at/after expiry exactly one re-parse and a fresh stamp; expires = stored + ttl in every reachable state; sweep post-condition; ticker argument positive for every configuration; once-only setter laws; tested: same histories as C13 plus the TTL×interval boundary matrix in both setter orders, each in a fresh process",
     },
+    "C15": {
+        "lean_modules": ["Gomjml.Props.C15"],
+        "audit": ["Gomjml/Audit/C15.lean"],
+        "level": "proof",
+        "race": True,
+        "trusted": ["sync.Mutex / sync.WaitGroup / context cancellation modelled by their documented semantics; the Go scheduler and the race detector are outside the Model",
+                    "verif yield points in singleflightDo / the cleanup goroutine (mjml/render.go, guarded by build tag verif) mark exactly the Model's atomic steps"],
+        "assumptions": ["safety and deadlock-freedom are proved for all interleavings of the Model's atomic steps; liveness under the real scheduler is sampled (partial)",
+                        "start/stop of the cleaner are atomic (both run under cacheCleanupMutex); 'at most one cleanup goroutine' is read as at most one uncancelled one",
+                        "data races on globals.instance seen by the race detector belong to C07's finding and are not counted here"],
+        "proved_vs_tested": "proved: inductive invariant of singleflightDo for every schedule, any number of goroutines and keys (no overlapping parses per key, hand-over of the leader's complete result, no reachable deadlock), at most one live cleaner, stop then restart starts exactly one; tested: model-guided deterministic replay of the real singleflightDo (every label as predicted), unguided delay-perturbed runs and full-path stress under the race detector",
+    },
 }
